@@ -196,6 +196,58 @@ func CondsAt(b *ssa.BasicBlock) []Cond {
 			out = append(out, Cond{ifi.Cond, false, p})
 		}
 	}
+	if condsNesting > 3 {
+		return out
+	}
+	condsNesting++
+	defer func() { condsNesting-- }()
+	return expandBoolPhis(out, 0)
+}
+
+// condsNesting bounds the mutual recursion CondsAt -> expandBoolPhis -> CondsOnEdge -> CondsAt.
+var condsNesting int
+
+// expandBoolPhis: ok := a != nil && b != nil; if !ok { return } - the condition that holds is a
+// phi of the short-circuit evaluation. When the phi is known to be T and all its edges but one are
+// the constant !T, it got its value on that one edge: the edge's value is T, and what holds on
+// that edge (the earlier operands of the && / ||) holds too.
+func expandBoolPhis(conds []Cond, depth int) []Cond {
+	if depth > 3 {
+		return conds
+	}
+	out := conds
+	for _, c := range conds {
+		v, truth := c.V, c.True
+		for {
+			u, isNot := v.(*ssa.UnOp)
+			if !isNot || u.Op != token.NOT {
+				break
+			}
+			v, truth = u.X, !truth
+		}
+		ph, ok := v.(*ssa.Phi)
+		if !ok || !BoolType(ph.Type()) {
+			continue
+		}
+		live := -1
+		for i, e := range ph.Edges {
+			if k, isK := e.(*ssa.Const); isK && k.Value != nil && (k.Value.String() == "true") != truth {
+				continue // this edge gives !T
+			}
+			if live >= 0 {
+				live = -2
+				break
+			}
+			live = i
+		}
+		if live < 0 || live >= len(ph.Block().Preds) {
+			continue
+		}
+		pred := ph.Block().Preds[live]
+		extra := []Cond{{ph.Edges[live], truth, pred}}
+		extra = append(extra, CondsOnEdge(pred, ph.Block())...)
+		out = append(out, expandBoolPhis(extra, depth+1)...)
+	}
 	return out
 }
 
